@@ -121,6 +121,7 @@ func treeDepth(t TNode) int {
 }
 
 func (c19) Gen(r *R, tier string) any {
+	observeUnknownAPI = false
 	if r.P(0.08) {
 		id := 0
 		d := pick(r, []int{7, 8, 9, 15, 16, 17, 18, 31, 32, 33, 34, 63, 64, 65, 66, 100})
@@ -249,6 +250,7 @@ func sameErrs(a, b []error) bool {
 }
 
 func (c19) Exec(plan any, c *Ctx) *Violation {
+	observeUnknownAPI = false
 	p := plan.(*C19Plan)
 	var err error
 	joins, joinOfOne := 0, false
